@@ -302,6 +302,7 @@ def run(model, rep):
     # is hashed) must survive rendering, or the string no longer names the digest that was computed
     from pv.handlers import HandlerTable as _HT
     _t = _HT(model)
+    rule_scrypt7_salt(model, rep)
     from . import shared as _shared2
     from . import c16 as _c16
     _c16.rule_digest_encoding(model, rep, "C02.i-digest-encoding")
@@ -310,3 +311,15 @@ def run(model, rep):
     from . import c09 as _c09
     _c09.rule_ab(model, _Renamed(rep, {"C09.b": "C02.g-using-write-target", "C09.a": "C02.g-using-fresh-subclass"}, "C02.x-"))
     _c07.rule_b(model, _Renamed(rep, {"C07.b": "C02.f-settings-rendered"}, "C02.x-"), _c07._handler_pairs(model, _t), _c07._libpass_pairs(model))   # sha1_crypt, bcrypt_sha256 v2 and scram/pbkdf2 digests are HMAC based
+
+
+def rule_scrypt7_salt(model, rep):
+    """a `$7$` string keeps its salt as text from the crypt alphabet ./0-9A-Za-z (libxcrypt refuses anything else): the random bytes a new
+    `$7$` hash is salted with are therefore spelt with hash64, not with standard base64 (whose `+` is outside that alphabet)"""
+    R = "C02.j-scrypt7-salt-alphabet"
+    S7 = H + "scrypt"
+    fn = model.func(S7, "scrypt._generate_salt")
+    enc = [ast.unparse(a.value.func) for a in walk_no_nested(fn) if isinstance(a, ast.Assign) and ast.unparse(a.targets[0]) == "salt" and isinstance(a.value, ast.Call)
+           and a.value.args and ast.unparse(a.value.args[0]) == "salt"]
+    rep.check(enc == ["h64.encode_bytes"], R, site(S7, "scrypt._generate_salt"), f"salt = {enc[0] if enc else '?'}(salt)", "generated `$7$` salts are encoded with h64.encode_bytes",
+              witness="scrypt.using(ident='$7$', rounds=4).hash('password'): about 29% of the strings carry a '+' in the salt field; the OS crypt() answers '*0' for them while passlib verifies them")
